@@ -161,6 +161,13 @@ def _run(mod, a, t0):
     cov["corpus_cases"] = n_corpus
     if hasattr(mod, "distribution"):
         cov["input_distribution"] = mod.distribution(cases)
+    if tier == "thorough" and proofs_ok and not os.environ.get("VERIF_NO_COQCHK"):
+        ok_chk, summary = vlib.coqchk(prop)
+        cov["coqchk"] = summary
+        if not ok_chk:
+            proof_failure = proof_failure or {"name": "coqchk Attrs.Props.%s" % prop,
+                                              "what": "coqchk rejects the compiled proofs of " + prop,
+                                              "log": summary, "searched": "tier thorough"}
     n_obl = len(thms) if thms else max(1, getattr(mod, "N_THEOREMS", 1))
     return vlib.finish(
         prop, tier, a.seed, t0,
